@@ -305,8 +305,20 @@ def build_case(ctx, idx, nnames, dollar):
     ffi.cdef(d.cdef)
     ffi.set_source("zapi%d" % idx, d.csource)
     cpath = os.path.join(base, "zapi%d.c" % idx)
-    with contextlib.redirect_stdout(io.StringIO()):
-        ffi.emit_c_code(cpath)
+    try:
+        with contextlib.redirect_stdout(io.StringIO()):
+            ffi.emit_c_code(cpath)
+    except AssertionError:
+        import traceback
+        tb = traceback.format_exc()
+        if "collect_step_tables" not in tb:
+            raise
+        # the generator's own cross-check between the index a struct/enum gets (sorted by name in
+        # collect_type_table) and its position in the sorted table failed: the tables would be unusable
+        ctx.violation("generator-table-order", "the generator's table-order consistency assertion failed on valid "
+                      "declarations: " + tb.strip().splitlines()[-2].strip(),
+                      {"kind": "module", "cdef": d.cdef, "csource": d.csource, "queries": [], "mode": "api"})
+        return None
     case["c"] = cpath
     # ABI
     ffi2 = cffi.FFI()
@@ -423,7 +435,7 @@ def validate(ctx, recs, metas, report=True):
         chunk = recs[lo:lo + 400]
         r_path = os.path.join(ctx.tmp, "lk_%d.json" % len(ctx.cov["tlc_runs"]))
         core.write_json(r_path, chunk)
-        r = core.tlc("Trace_Lookup", workers=1, env=light({"TRACE_FILE": r_path}))
+        r = core.tlc("Trace_Lookup", workers=1, env=(light if sum(len(x["queries"]) for x in chunk) < 5000 else dict)({"TRACE_FILE": r_path}))
         ctx.add_tlc("Trace_Lookup", r, count_states=False)
         chk = core.tla_tuples(r.out, "CHECKED")
         nq = sum(len(x["queries"]) for x in chunk)
@@ -477,7 +489,8 @@ def run(ctx):
     for i in range(nmod):
         case = build_case(ctx, i, ctx.rng.choice([6, 12, 25, 40]) if quick else
                           ctx.rng.choice([3, 8, 20, 40, 80]), dollar=False)
-        cfuts.append(pool.submit(compile_case, case))
+        if case is not None:
+            cfuts.append(pool.submit(compile_case, case))
     # ---------------------------------------------------------------- spec -> code
     tails = [b"\0", b"a", b"\xff"]
     oc = [("0A_a", 2, 3, 3)] if quick else [("$0A_ab", 2, 3, 3), ("_a", 3, 4, 4)]
@@ -559,7 +572,13 @@ def replay(ctx, obj):
         print("re-generating the module from the stored cdef and repeating the failing lookup")
         case = {"idx": 0, "dir": ctx.tmp, "cdef": rp["cdef"], "csource": rp["csource"]}
         ffi = cffi.FFI(); ffi.cdef(rp["cdef"]); ffi.set_source("zapi0", rp["csource"])
-        case["c"] = os.path.join(ctx.tmp, "zapi0.c"); ffi.emit_c_code(case["c"])
+        case["c"] = os.path.join(ctx.tmp, "zapi0.c")
+        try:
+            ffi.emit_c_code(case["c"])
+        except AssertionError as e:
+            print("the generator's consistency assertion fails again")
+            ctx.violation(obj["key"], obj["what"], rp)
+            return
         ffi2 = cffi.FFI(); ffi2.cdef(rp["cdef"]); ffi2.set_source("zabi0", None)
         case["py"] = os.path.join(ctx.tmp, "zabi0.py"); ffi2.emit_python_code(case["py"])
         with open(os.path.join(ctx.tmp, "lib.c"), "w") as f:
